@@ -703,7 +703,12 @@ SIDE_EFFECT = ('var', 'set', 'if', 'while', 'for', 'func', 'ret', 'break', 'cont
 
 def is_side_effect(s):
     if s[0] in SIDE_EFFECT: return True
-    if s[0] == 'expr': return s[1][0] in ('call', 'ifx', 'ifchain', 'tern')
+    if s[0] == 'expr':
+        if s[1][0] == 'tern':
+            # `{ k = v } == x ? a : b` has to be printed inside parentheses (a statement must not start with `{`), and a parenthesised
+            # expression is never a statement with a side effect for the grammar ("(1 ? 2 : 3); f()" is a syntax error)
+            return not src_e(s[1], 16, True).startswith('{')
+        return s[1][0] in ('call', 'ifx', 'ifchain')
     return False
 
 
